@@ -151,3 +151,47 @@ class Monitor(object):
                     n *= len(sub.values)
                 oks.append(d['_size'] == n)
         return ctx.AND(*oks)
+
+
+def fresh_copy(ctx, x):
+    """a freshly constructed array with the same values, labels and dims (public constructor, copies of the buffers)"""
+    return ctx.da.DimArray(x.values.copy(), axes=[(ax.name, ax.values.copy()) for ax in x.axes])
+
+
+def _same_outcome(ctx, r1, r2):
+    from vlib.ctx import Ref, same
+    if r1[0] != r2[0]:
+        return False
+    if r1[0] == 'exc':
+        return r1[1] == r2[1]
+    a, b = r1[1], r2[1]
+    da = ctx.da
+    if isinstance(b, da.DimArray):
+        if not isinstance(a, da.DimArray):
+            return False
+        ref = Ref(list(b.dims), [ax.values.tolist() for ax in b.axes], ctx.flat(b.values.tolist()) if b.values.ndim else [b.values.tolist()])
+        return same(ctx, a, ref)
+    if isinstance(a, da.DimArray):
+        return False
+    return ctx.eq(ctx.scalar(a), ctx.scalar(b))
+
+
+def probe(ctx, x):
+    """history independence, second step: an array that came out of an operation answers a few further questions exactly like a
+    freshly constructed array with the same values, labels and dims"""
+    if not isinstance(x, ctx.da.DimArray) or x.values.ndim == 0 or x.values.shape[0] == 0 or x.values.size > 12:
+        return True
+    try:
+        f = fresh_copy(ctx, x)
+    except Exception:
+        return True
+    l0 = x.axes[0].values.tolist()
+    first, last = l0[0], l0[-1]
+    if isinstance(first, (list, tuple)):
+        probes = [lambda a: a.ix[0], lambda a: a.ix[-1:]]
+    else:
+        probes = [lambda a: a.ix[0], lambda a: a[first], lambda a: a[first:last], lambda a: a.ix[0:1], lambda a: a.take([last], axis=0)]
+    oks = []
+    for p in probes:
+        oks.append(_same_outcome(ctx, ctx.call(lambda: p(x)), ctx.call(lambda: p(f))))
+    return ctx.AND(*oks)
